@@ -1,4 +1,4 @@
-import argparse, importlib, json, os, sys, time, traceback, warnings
+import argparse, importlib, json, os, re, sys, time, traceback, warnings
 import common as C
 from common import Ctx, Failure
 
@@ -65,6 +65,39 @@ def run(ctx, mod):
             failures.append(f)
         for b in cor.get("broken", []):
             broken.append(b)
+    # the property oracle on the cases the correspondence evaluated (a model that agrees with the code - e.g. because a
+    # numpy/scipy/fastjet result is passed into it as an oracle value - must not hide a failing input)
+    oracle_checked, oracle_crashes = 0, 0
+    all_cases = (cor or {}).pop("all_cases", None) if cor else None
+    if all_cases and not getattr(mod, "ORACLE_ON_EVERY_CASE", False):
+        import random as _random
+        order = list(range(len(all_cases)))
+        _random.Random(ctx.seed).shuffle(order)
+        budget, t_or, nfound = (60 if ctx.quick else 900), time.time(), 0
+        flagged = {json.dumps(f.case, sort_keys=True, default=str) for f in failures}
+        for i in order:
+            if time.time() - t_or > budget or nfound >= 5:
+                break
+            c = all_cases[i]
+            if json.dumps(c, sort_keys=True, default=str) in flagged:
+                continue
+            oracle_checked += 1
+            try:
+                msg = mod.oracle(c)
+            except Exception:
+                oracle_crashes += 1
+                continue
+            if msg:
+                key = None
+                if hasattr(mod, "finding_key"):
+                    key = mod.finding_key(c, msg)
+                else:
+                    mk = re.search(r"\[finding key ([\w-]+)\]", str(msg))
+                    key = mk.group(1) if mk else None
+                if key is None:
+                    nfound += 1          # (failures that belong to a recorded finding do not use up the report limit)
+                failures.append(Failure(c, "property oracle fails on the implementation (model and implementation agree on this case)",
+                                        on_impl=msg, key=key))
     # classify correspondence failures with the property oracle on the real code
     real = []
     for f in failures:
@@ -136,7 +169,8 @@ def run(ctx, mod):
            "axioms_per_theorem": res["axioms"],
            "generated_from_source": getattr(mod, "GEN", []),
            "broken": [b["what"] for b in broken],
-           "search_evaluations": searched}
+           "search_evaluations": searched,
+           "property_oracle_on_correspondence_cases": oracle_checked, "property_oracle_crashes": oracle_crashes}
     if cor:
         for k in ("evaluations", "distinct_nontrivial", "rule", "samples", "distribution", "traces_validated_against_impl",
                   "exhaustive", "exact_agreements", "tolerance_agreements", "model_runner"):
